@@ -160,6 +160,12 @@ def _rm_cum_axioms(S, a):
                   z3.ForAll([w], z3.Implies(z3.And(0 <= w, w < m),
                                             _RM_CUM(w + 1) == _RM_CUM(w) + _rm_e(sw, w) - _rm_s(sw, w)),
                             patterns=[_RM_CUM(w + 1)]))
+    w2 = z3.Int("rm_w2")
+    # the same unfolding stated over two indices, triggered without arithmetic whenever both cum(w) and cum(w + 1) are terms of an
+    # obligation (a trigger holding `w + 1` matches or not depending on how the solver normalises the sum)
+    defn = z3.And(defn, z3.ForAll([w, w2], z3.Implies(z3.And(0 <= w, w < m, w2 == w + 1),
+                                                      _RM_CUM(w2) == _RM_CUM(w) + _rm_e(sw, w) - _rm_s(sw, w)),
+                                  patterns=[z3.MultiPattern(_RM_CUM(w2), _RM_CUM(w))]))
     v = z3.Int("rm_v")
     lem = z3.Implies(S.b(_rm_windows_ok(S, sw, m, n)),
                      z3.ForAll([v], z3.Implies(z3.And(0 <= v, v <= m),
